@@ -1100,7 +1100,7 @@ def run(tier="quick", mktable=False):
                           "of a generated or amalgamated source, a #line directive) is recorded as a different one"
                           % (fn.name, r["n"], pw[r["n"]], d.get("n"), d["tw"], d["tw"]),
                    proof="field %s has %d bits >= min(width of the parameter, 32) = %d" % (d.get("n"), d["tw"], need))
-    chk.count("record_field_stores_of_parameters", nw, floor=4)
+    chk.count("record_field_stores_of_parameters", nw, floor=1)   # 4 today; a shared fill helper would leave 2
     chk.count("wrapper_paths", npaths, floor=8)
     chk.count("gated_edit_sites", nedit, floor=4)
     chk.count("raw_allocator_calls_outside_mem", nraw, floor=100)
